@@ -19,9 +19,11 @@ impl ExtensionFactory for RecFactory {
 }
 struct Rec { i: usize, slot: Slot }
 impl Rec {
-    fn log(&self, ev: &str, hook: &str, path: J, ok: bool) {
+    fn log(&self, ev: &str, hook: &str, path: J, ok: bool) { self.log_field(ev, hook, path, ok, "") }
+    /// resolve hooks also record the name of the field they wrap (ResolveInfo::name; the path only has response keys)
+    fn log_field(&self, ev: &str, hook: &str, path: J, ok: bool, field: &str) {
         if let Some(req) = self.slot.lock().unwrap().as_ref() {
-            req.event(json!({"ev": ev, "hook": hook, "ext": self.i, "path": path, "ok": ok, "field": "", "items": -1, "call": 0}));
+            req.event(json!({"ev": ev, "hook": hook, "ext": self.i, "path": path, "ok": ok, "field": field, "items": -1, "call": 0}));
         }
     }
 }
@@ -65,9 +67,10 @@ impl Extension for Rec {
     }
     async fn resolve(&self, ctx: &ExtensionContext<'_>, info: ResolveInfo<'_>, next: NextResolve<'_>) -> ServerResult<Option<Value>> {
         let p = path_json(&info);
-        self.log("hook-enter", "resolve", p.clone(), true);
+        let name = info.name.to_string();
+        self.log_field("hook-enter", "resolve", p.clone(), true, &name);
         let r = next.run(ctx, info).await;
-        self.log("hook-exit", "resolve", p, r.is_ok());
+        self.log_field("hook-exit", "resolve", p, r.is_ok(), &name);
         r
     }
 }
